@@ -50,7 +50,10 @@ EOther ==
   /\ More /\ UNCHANGED pm
   /\ \/ E.ev = "setopt" /\ pm[E.p] = cur /\ T_SetOpt /\ (E.err # "" => ~CanPtrace)
      \/ /\ E.ev = "trap" /\ pm[E.p] = cur /\ T_Trap
-        /\ IF E.err = "" THEN CanPtrace /\ trapped' # trapped /\ trapped'[Len(trapped')].act = ActName(E.act)
+        \* (a task that is being killed may still hand out its registers while its memory is gone:
+        \*  the handler then answers about garbage; the answer is of no consequence)
+        /\ IF E.err = "" THEN \/ CanPtrace /\ trapped' # trapped /\ trapped'[Len(trapped')].act = ActName(E.act)
+                              \/ ~CanPtrace
                          ELSE ~CanPtrace
      \/ E.ev = "cont" /\ pm[E.p] = cur /\ csig = E.sig /\ T_Cont
      \/ E.ev = "end" /\ T_KillAll /\ StatusNo(result.status) = E.status
